@@ -79,6 +79,15 @@ func (c10) Gen(rng *rand.Rand, tier string, k int) *Case {
 			c.Ops = append(c.Ops, OpSpec{Op: "assets"})
 		}
 	}
+	if rng.Intn(5) == 0 {
+		// the history straddles a turn of the year (calendar arithmetic on dates shows there)
+		k := 345 + rng.Intn(20)
+		for i := range c.Ops {
+			if c.Ops[i].Op == "append" || c.Ops[i].Op == "getsince" {
+				c.Ops[i].From += k
+			}
+		}
+	}
 	c.Cap = rng.Intn(3)
 	if c.Impl == "sql" && rng.Intn(4) == 0 {
 		// fault-injecting configuration: the database rejects the k-th INSERT of the history
